@@ -729,9 +729,43 @@ fn prepare_inner(reg: Reg, front: Front, rng: &mut Prng) -> Option<Link> {
 
 /// Sends `cmds` in one downlink and judges it; returns the link for further use.
 fn send_and_judge(link: &mut Link, reg: Reg, front: Front, cmds: &[Cmd], in_fopts: bool, rx2: bool, tag: &str, col: &mut Collector) -> Option<Judged> {
+    send_and_judge_split(link, reg, front, cmds, in_fopts, rx2, tag, col, None)
+}
+
+/// `split`: the first `split` commands travel in FOpts and the others in the port-0 FRMPayload of the
+/// same frame. LoRaWAN tells a device to ignore a frame that carries commands in both places; a device
+/// that accepts it handles and answers it under the stated rules like any other accepted downlink
+/// (either outcome is taken). Without a given split, one port-0 frame in four is split at a command
+/// boundary derived from its bytes (never inside a LinkADRReq block).
+fn send_and_judge_split(link: &mut Link, reg: Reg, front: Front, cmds: &[Cmd], in_fopts: bool, rx2: bool, tag: &str, col: &mut Collector, split: Option<usize>) -> Option<Judged> {
     let bytes: Vec<u8> = cmds.iter().flat_map(|c| c.bytes()).collect();
+    let mut split = split;
+    if split.is_none() && carrier_name(in_fopts, bytes.len()) == "port0" && cmds.len() >= 2 {
+        let h = bytes.iter().fold(7u32, |a, b| a.wrapping_mul(31).wrapping_add(*b as u32));
+        if h % 4 == 0 {
+            split = Some(1 + ((h / 4) as usize) % (cmds.len() - 1));
+        }
+    }
+    let split_bytes = split.and_then(|ci| {
+        if ci == 0 || ci >= cmds.len() || (matches!(cmds[ci - 1], Cmd::LinkAdr { .. }) && matches!(cmds[ci], Cmd::LinkAdr { .. })) {
+            return None;
+        }
+        let k: usize = cmds[..ci].iter().map(|c| c.bytes().len()).sum();
+        if k <= 15 { Some(k) } else { None }
+    });
     let s0 = link.dev.snapshot();
-    let t = link.deliver_mac(&bytes, in_fopts, rx2);
+    let t = match split_bytes {
+        Some(k) => {
+            col.event("both_carriers_frames");
+            link.deliver_mac_both(&bytes[..k], &bytes[k..], rx2)
+        }
+        None => link.deliver_mac(&bytes, in_fopts, rx2),
+    };
+    if split_bytes.is_some() && matches!(t.resp, Resp::RxComplete | Resp::NoAck) {
+        // the frame was ignored, as LoRaWAN prescribes for commands in both places
+        col.event("both_carriers_frame_ignored");
+        return None;
+    }
     if let Resp::Panic(m, l) = &t.resp {
         col.violation(&format!("C08|panic|{}|{}", short_loc(l), cmds.first().map(|c| c.kind()).unwrap_or("none")), "device panicked while handling MAC commands", json!({"region": reg.name(), "commands": format!("{:?}", cmds), "msg": m, "loc": l}));
         return None;
@@ -772,7 +806,7 @@ fn send_and_judge(link: &mut Link, reg: Reg, front: Front, cmds: &[Cmd], in_fopt
     if col.want_sample() {
         col.sample(json!({"region": reg.name(), "front": front.name(), "commands": format!("{:?}", cmds), "answers": hex(&answers)}));
     }
-    let j = judge(reg, front, cmds, carrier_name(in_fopts, bytes.len()), &s0, &s1, &answers, tag, col);
+    let j = judge(reg, front, cmds, if split_bytes.is_some() { "both" } else { carrier_name(in_fopts, bytes.len()) }, &s0, &s1, &answers, tag, col);
     // "has taken effect": a fully accepted LinkADRReq is also what the very next uplink (the one
     // that carries the answer) is sent with
     if cmds.iter().any(|c| matches!(c, Cmd::LinkAdr { .. })) {
@@ -806,9 +840,27 @@ fn multi_case(reg: Reg, front: Front, rng: &mut Prng, col: &mut Collector) {
     let Some(mut link) = prepare(reg, front, rng) else { return };
     let ndl = rng.range(1, 3);
     for _ in 0..ndl {
-        let shape = rng.below(5);
+        let shape = rng.below(6);
         let mut cmds: Vec<Cmd> = vec![];
+        let mut split: Option<usize> = None;
         match shape {
+            5 => {
+                // commands in FOpts and in the port-0 FRMPayload of one frame: the FOpts part fills the
+                // answers up to 10-14 octets and may lose its last answer, the payload part goes on
+                // with a short and a long answer
+                for _ in 0..rng.range(3, 4) {
+                    cmds.push(Cmd::DevStatus);
+                }
+                for _ in 0..rng.range(1, 2) {
+                    cmds.push(Cmd::RxTiming { del: rng.below(16) as u8 });
+                }
+                cmds.push(Cmd::DevStatus);
+                split = Some(cmds.len());
+                cmds.push(Cmd::RxTiming { del: rng.below(16) as u8 });
+                if rng.bool() {
+                    cmds.push(Cmd::DevStatus);
+                }
+            }
             0 => {
                 // LinkADR block of 2..8
                 for _ in 0..rng.range(2, 8) {
@@ -841,7 +893,7 @@ fn multi_case(reg: Reg, front: Front, rng: &mut Prng, col: &mut Collector) {
         while cmds.iter().map(|c| c.bytes().len()).sum::<usize>() > 40 {
             cmds.pop();
         }
-        let r = send_and_judge(&mut link, reg, front, &cmds, rng.bool(), rng.chance(1, 4), "multi", col);
+        let r = send_and_judge_split(&mut link, reg, front, &cmds, rng.bool(), rng.chance(1, 4), "multi", col, split);
         if r.is_none() {
             return;
         }
